@@ -435,3 +435,223 @@ Proof.
 Qed.
 
 End Refine.
+
+(* ================================================================== declarations and files *)
+Section RefineFiles.
+Variables snake camel screaming : str -> str.
+
+Notation cv_props := (cv_props snake camel screaming).
+Notation cv_nested := (cv_nested snake camel screaming).
+Notation cv_nesteds := (cv_nesteds snake camel screaming).
+Notation cv_enum := (cv_enum screaming).
+Notation fields_ok := (fields_ok snake).
+Notation props_inline_ok := (props_inline_ok snake camel screaming).
+Notation nested_ok := (nested_ok snake camel screaming).
+Notation nesteds_ok := (nesteds_ok snake camel screaming).
+Notation prop_msg_names := (prop_msg_names snake camel).
+Notation prop_enum_names := (prop_enum_names camel).
+
+Lemma cv_nested_obj ev path nm ps subs :
+  cv_nested ev path (NObject nm ps subs) =
+  obind (cv_props ev (path ++ [nm]) false 1 ps) (fun r =>
+  obind (cv_nesteds ev (path ++ [nm]) subs) (fun s =>
+    let '(sm, se, si) := s in
+    Ok ([DMsg nm MObject (pr_fields r) (pr_msgs r ++ sm) (pr_enums r ++ se)], [],
+        imp_ext :: pr_imports r ++ si))).
+Proof. reflexivity. Qed.
+
+Lemma cv_nested_oneof ev path nm ps subs :
+  cv_nested ev path (NOneof nm ps subs) =
+  obind (cv_props ev (path ++ [nm]) true 1 ps) (fun r =>
+  obind (cv_nesteds ev (path ++ [nm]) subs) (fun s =>
+    let '(sm, se, si) := s in
+    Ok ([DMsg nm MOneof (pr_fields r) (pr_msgs r ++ sm) (pr_enums r ++ se)], [],
+        imp_ext :: pr_imports r ++ si))).
+Proof. reflexivity. Qed.
+
+Lemma cv_nesteds_cons ev path n r :
+  cv_nesteds ev path (NCons n r) =
+  obind (cv_nested ev path n) (fun a =>
+  obind (cv_nesteds ev path r) (fun c =>
+    let '(am, ae, ai) := a in
+    let '(cm, ce, ci) := c in
+    Ok (am ++ cm, ae ++ ce, ai ++ ci))).
+Proof. reflexivity. Qed.
+
+Lemma nested_ok_obj nm ps subs msgs enums :
+  nested_ok (NObject nm ps subs) msgs enums =
+  exists m, In m msgs /\ dm_name m = nm /\ dm_kind m = MObject /\
+            fields_ok false 1 (props_list ps) (dm_fields m) /\
+            props_inline_ok ps (dm_msgs m) (dm_enums m) /\
+            nesteds_ok subs (dm_msgs m) (dm_enums m) /\
+            map dm_name (dm_msgs m) =
+              flat_map prop_msg_names (props_list ps) ++ flat_map nested_msg_name (nesteds_list subs) /\
+            map en_name (dm_enums m) =
+              flat_map prop_enum_names (props_list ps) ++ flat_map nested_enum_name (nesteds_list subs).
+Proof. reflexivity. Qed.
+
+Lemma nested_ok_oneof nm ps subs msgs enums :
+  nested_ok (NOneof nm ps subs) msgs enums =
+  exists m, In m msgs /\ dm_name m = nm /\ dm_kind m = MOneof /\
+            fields_ok true 1 (props_list ps) (dm_fields m) /\
+            props_inline_ok ps (dm_msgs m) (dm_enums m) /\
+            nesteds_ok subs (dm_msgs m) (dm_enums m) /\
+            map dm_name (dm_msgs m) =
+              flat_map prop_msg_names (props_list ps) ++ flat_map nested_msg_name (nesteds_list subs) /\
+            map en_name (dm_enums m) =
+              flat_map prop_enum_names (props_list ps) ++ flat_map nested_enum_name (nesteds_list subs).
+Proof. reflexivity. Qed.
+
+Lemma nested_ok_enum e msgs enums :
+  nested_ok (NEnum e) msgs enums = exists de, In de enums /\ enum_ok screaming (e_name e) e de.
+Proof. reflexivity. Qed.
+
+Lemma nesteds_ok_cons n r msgs enums :
+  nesteds_ok (NCons n r) msgs enums = (nested_ok n msgs enums /\ nesteds_ok r msgs enums).
+Proof. reflexivity. Qed.
+
+Lemma nested_mono :
+  (forall n msgs enums msgs' enums', incl msgs msgs' -> incl enums enums' ->
+      nested_ok n msgs enums -> nested_ok n msgs' enums') /\
+  (forall ns msgs enums msgs' enums', incl msgs msgs' -> incl enums enums' ->
+      nesteds_ok ns msgs enums -> nesteds_ok ns msgs' enums').
+Proof.
+  apply nested_mutind.
+  - intros nm ps subs IH msgs enums msgs' enums' Hm He H. rewrite nested_ok_obj in *.
+    destruct H as (m & Hin & Hrest). exists m. split; [apply Hm; exact Hin|exact Hrest].
+  - intros nm ps subs IH msgs enums msgs' enums' Hm He H. rewrite nested_ok_oneof in *.
+    destruct H as (m & Hin & Hrest). exists m. split; [apply Hm; exact Hin|exact Hrest].
+  - intros e msgs enums msgs' enums' Hm He H. rewrite nested_ok_enum in *.
+    destruct H as (de & Hin & Hrest). exists de. split; [apply He; exact Hin|exact Hrest].
+  - intros msgs enums msgs' enums' _ _ _. exact I.
+  - intros n IHn r IHr msgs enums msgs' enums' Hm He H. rewrite nesteds_ok_cons in *.
+    destruct H as [H1 H2]. split; [eapply IHn; eassumption|eapply IHr; eassumption].
+Qed.
+
+Definition nested_spec (n : nested) : Prop :=
+  forall ev path ms es is, cv_nested ev path n = Ok (ms, es, is) ->
+    map dm_name ms = nested_msg_name n /\ map en_name es = nested_enum_name n /\
+    (forall msgs enums, incl ms msgs -> incl es enums -> nested_ok n msgs enums).
+
+Definition nesteds_spec (ns : nesteds) : Prop :=
+  forall ev path ms es is, cv_nesteds ev path ns = Ok (ms, es, is) ->
+    map dm_name ms = flat_map nested_msg_name (nesteds_list ns) /\
+    map en_name es = flat_map nested_enum_name (nesteds_list ns) /\
+    (forall msgs enums, incl ms msgs -> incl es enums -> nesteds_ok ns msgs enums).
+
+Theorem nested_refines : (forall n, nested_spec n) /\ (forall ns, nesteds_spec ns).
+Proof.
+  pose proof (proj1 (proj2 (convert_refines snake camel screaming))) as Hprops.
+  apply nested_mutind.
+  - intros nm ps subs IH ev path ms es is H. rewrite cv_nested_obj in H. inv_ok H.
+    destruct a0 as [[sm se] si]. inversion H. subst ms es is. clear H.
+    destruct (Hprops _ _ _ _ _ _ E) as (Hf & Hmn & Hen & Hin).
+    destruct (IH _ _ _ _ _ E0) as (Hsm & Hse & Hsub).
+    split; [reflexivity|]. split; [reflexivity|].
+    intros msgs enums Hm _. rewrite nested_ok_obj.
+    eexists. split; [apply Hm; left; reflexivity|]. cbn [dm_name dm_kind dm_fields dm_msgs dm_enums].
+    split; [reflexivity|]. split; [reflexivity|]. split; [exact Hf|].
+    split; [apply Hin; [apply incl_appl|apply incl_appl]; apply incl_refl|].
+    split; [apply Hsub; [apply incl_appr|apply incl_appr]; apply incl_refl|].
+    rewrite !map_app, Hmn, Hen, Hsm, Hse. split; reflexivity.
+  - intros nm ps subs IH ev path ms es is H. rewrite cv_nested_oneof in H. inv_ok H.
+    destruct a0 as [[sm se] si]. inversion H. subst ms es is. clear H.
+    destruct (Hprops _ _ _ _ _ _ E) as (Hf & Hmn & Hen & Hin).
+    destruct (IH _ _ _ _ _ E0) as (Hsm & Hse & Hsub).
+    split; [reflexivity|]. split; [reflexivity|].
+    intros msgs enums Hm _. rewrite nested_ok_oneof.
+    eexists. split; [apply Hm; left; reflexivity|]. cbn [dm_name dm_kind dm_fields dm_msgs dm_enums].
+    split; [reflexivity|]. split; [reflexivity|]. split; [exact Hf|].
+    split; [apply Hin; [apply incl_appl|apply incl_appl]; apply incl_refl|].
+    split; [apply Hsub; [apply incl_appr|apply incl_appr]; apply incl_refl|].
+    rewrite !map_app, Hmn, Hen, Hsm, Hse. split; reflexivity.
+  - intros e ev path ms es is H. cbn in H. inversion H. subst ms es is. clear H.
+    split; [reflexivity|]. split; [cbn [map nested_enum_name]; rewrite (proj1 (cv_enum_ok snake camel screaming _ e)); reflexivity|].
+    intros msgs enums _ He. rewrite nested_ok_enum. eexists. split; [apply He; left; reflexivity|].
+    apply (cv_enum_ok snake camel screaming).
+  - intros ev path ms es is H. cbn in H. inversion H. subst. repeat split; reflexivity.
+  - intros n IHn r IHr ev path ms es is H. rewrite cv_nesteds_cons in H. inv_ok H.
+    destruct a as [[am ae] ai]. destruct a0 as [[cm ce] ci]. inversion H. subst ms es is. clear H.
+    destruct (IHn _ _ _ _ _ E) as (Ham & Hae & Hn).
+    destruct (IHr _ _ _ _ _ E0) as (Hcm & Hce & Hr).
+    cbn [nesteds_list flat_map]. rewrite !map_app, Ham, Hae, Hcm, Hce.
+    split; [reflexivity|]. split; [reflexivity|].
+    intros msgs enums Hm He. rewrite nesteds_ok_cons. split.
+    + apply Hn; [eapply incl_app_l; exact Hm|eapply incl_app_l; exact He].
+    + apply Hr; [eapply incl_app_r; exact Hm|eapply incl_app_r; exact He].
+Qed.
+
+(* ------------------------------------------------------------------ elements of a file *)
+Notation cv_elements := (cv_elements snake camel screaming).
+Notation element_ok := (element_ok snake camel screaming).
+
+Lemma cv_elements_main ev pkg els : forall main svc top main' svc' top',
+  cv_elements ev pkg els main svc top = Ok (main', svc', top') ->
+  exists ms es,
+    fa_msgs main' = fa_msgs main ++ ms /\ fa_enums main' = fa_enums main ++ es /\
+    fa_svcs main' = fa_svcs main /\
+    map dm_name ms = flat_map element_msg_name els /\
+    map en_name es = flat_map element_enum_name els /\
+    forall e, In e els -> forall msgs enums, incl ms msgs -> incl es enums -> element_ok e msgs enums.
+Proof.
+  destruct nested_refines as [Hn _].
+  induction els as [|e r IH]; intros main svc top main' svc' top' H.
+  - cbn in H. inversion H. subst. exists [], []. rewrite !app_nil_r.
+    repeat split; try reflexivity. intros e [].
+  - cbn [J5sConvert.cv_elements] in H. destruct e as [nm ps subs|nm ps subs|en|s|t].
+    + inv_ok H. destruct a as [[ms0 es0] is0].
+      destruct (IH _ _ _ _ _ _ H) as (ms & es & Hm & He & Hs & Hmn & Hen & Hel).
+      destruct (Hn _ _ _ _ _ _ E) as (Hn1 & Hn2 & Hn3).
+      exists (ms0 ++ ms), (es0 ++ es). cbn [facc_add fa_msgs fa_enums fa_svcs] in Hm, He, Hs.
+      rewrite Hm, He, Hs, !app_assoc, app_nil_r, !map_app, Hn1, Hn2, Hmn, Hen.
+      split; [reflexivity|]. split; [reflexivity|]. split; [reflexivity|].
+      split; [reflexivity|]. split; [reflexivity|].
+      intros e [<-|Hin] msgs enums Hi1 Hi2.
+      * apply Hn3; [eapply incl_app_l; exact Hi1|eapply incl_app_l; exact Hi2].
+      * apply (Hel e Hin); [eapply incl_app_r; exact Hi1|eapply incl_app_r; exact Hi2].
+    + inv_ok H. destruct a as [[ms0 es0] is0].
+      destruct (IH _ _ _ _ _ _ H) as (ms & es & Hm & He & Hs & Hmn & Hen & Hel).
+      destruct (Hn _ _ _ _ _ _ E) as (Hn1 & Hn2 & Hn3).
+      exists (ms0 ++ ms), (es0 ++ es). cbn [facc_add fa_msgs fa_enums fa_svcs] in Hm, He, Hs.
+      rewrite Hm, He, Hs, !app_assoc, app_nil_r, !map_app, Hn1, Hn2, Hmn, Hen.
+      split; [reflexivity|]. split; [reflexivity|]. split; [reflexivity|].
+      split; [reflexivity|]. split; [reflexivity|].
+      intros e [<-|Hin] msgs enums Hi1 Hi2.
+      * apply Hn3; [eapply incl_app_l; exact Hi1|eapply incl_app_l; exact Hi2].
+      * apply (Hel e Hin); [eapply incl_app_r; exact Hi1|eapply incl_app_r; exact Hi2].
+    + destruct (IH _ _ _ _ _ _ H) as (ms & es & Hm & He & Hs & Hmn & Hen & Hel).
+      exists ms, (cv_enum (e_name en) en :: es). cbn [facc_add fa_msgs fa_enums fa_svcs] in Hm, He, Hs.
+      rewrite Hm, He, Hs, !app_nil_r, <- app_assoc.
+      split; [reflexivity|]. split; [reflexivity|]. split; [reflexivity|].
+      split; [exact Hmn|].
+      split; [cbn [map flat_map element_enum_name app]; rewrite Hen, (proj1 (cv_enum_ok snake camel screaming _ en)); reflexivity|].
+      intros e [<-|Hin] msgs enums Hi1 Hi2.
+      * cbn [J5sContract.element_ok]. rewrite nested_ok_enum. eexists. split; [apply Hi2; left; reflexivity|].
+        apply (cv_enum_ok snake camel screaming).
+      * apply (Hel e Hin); [exact Hi1|]. intros x Hx. apply Hi2. right. exact Hx.
+    + inv_ok H. destruct a as [[ms0 ss0] is0].
+      destruct (IH _ _ _ _ _ _ H) as (ms & es & Hm & He & Hs & Hmn & Hen & Hel).
+      exists ms, es. repeat split; try assumption.
+      intros e [<-|Hin] msgs enums Hi1 Hi2; [exact I|apply (Hel e Hin); assumption].
+    + inv_ok H. destruct a as [[ms0 ss0] is0].
+      destruct (IH _ _ _ _ _ _ H) as (ms & es & Hm & He & Hs & Hmn & Hen & Hel).
+      exists ms, es. repeat split; try assumption.
+      intros e [<-|Hin] msgs enums Hi1 Hi2; [exact I|apply (Hel e Hin); assumption].
+Qed.
+
+(* ConvertJ5File: the first descriptor is the file of the source's own package and holds
+   exactly the declared objects, oneofs and enums *)
+Theorem cv_file_main exports f D :
+  cv_file snake camel screaming exports f = Ok D ->
+  exists df rest, D = df :: rest /\ main_file_ok snake camel screaming f df.
+Proof.
+  unfold cv_file. intros H. inv_ok H. destruct a0 as [[main svc] top]. inversion H. subst D. clear H.
+  eexists. eexists. split; [reflexivity|].
+  destruct (cv_elements_main _ _ _ _ _ _ _ _ _ E0) as (ms & es & Hm & He & Hs & Hmn & Hen & Hel).
+  cbn [facc_nil fa_msgs fa_enums fa_svcs app] in Hm, He, Hs.
+  unfold main_file_ok, mk_file. cbn [fl_path fl_pkg fl_svcs fl_msgs fl_enums].
+  rewrite Hm, He, Hs. repeat split; try assumption.
+  intros e Hin. apply (Hel e Hin); apply incl_refl.
+Qed.
+
+End RefineFiles.
